@@ -3,24 +3,37 @@
 import json, os
 V = os.path.dirname(os.path.dirname(os.path.abspath(__file__)))
 TECH = {
- "C01": "Lean 4 theorem (simulation encoder counter <-> decoder state) + model/impl correspondence",
- "C02": "Lean 4 invariant proof over all histories + model/impl correspondence on adversarial streams",
- "C03": "Lean 4 theorem grammar => parser + model/impl correspondence on generated encodings",
- "C04": "Lean 4 theorem parser => grammar + model/impl correspondence on mutants",
- "C05": "Lean 4 invariant proof (panic outcomes unreachable) + model/impl correspondence",
- "C06": "Lean 4 proof (no panic, allocation ghost bound) + correspondence + counting allocator",
+ "C01": "Lean 4 theorem (simulation encoder counter <-> decoder state; every front-end stops exactly at the frame end) + model/impl correspondence",
+ "C02": "Lean 4 invariant proof over all histories (also with a failing allocator) + model/impl correspondence on adversarial streams",
+ "C03": "Lean 4 theorem grammar => parser, canonical encoder with free choices, WFFile <-> encodable <-> parseable + model/impl correspondence on generated encodings",
+ "C04": "Lean 4 theorem parser => grammar (both parsers) + model/impl correspondence on mutants",
+ "C05": "Lean 4 invariant proof (panic outcomes unreachable, counters bounded by the stream, failing-allocator decoder) + model/impl correspondence incl. injected allocation failures",
+ "C06": "Lean 4 proof (no panic, allocation ghost bound, no re-growth on the error path) + correspondence + counting allocator",
  "C07": "Lean 4 theorem encoders = wire-format spec + model/impl correspondence",
- "C08": "Lean 4 theorem (start-sequence matcher characterisation) + model/impl correspondence",
+ "C08": "Lean 4 theorem (start-sequence matcher characterisation, StartFree <-> no infix) + model/impl correspondence",
  "C09": "Lean 4 theorem (message factorisation, both parsers) + model/impl correspondence",
  "C10": "Lean 4 corollary of C01/C08/C14/C03 on the reader model + correspondence of the SmlReader glue",
- "C11": "Lean 4 induction over fault events + model/impl correspondence with fault-injecting sources",
+ "C11": "Lean 4 induction over fault events (io, mem, embedded-hal sources) + model/impl correspondence with fault-injecting sources",
  "C12": "Lean 4 theorem parseTlf = positional TLF rule, integer exactness + model/impl correspondence",
  "C13": "Lean 4 termination measure proof + model/impl correspondence",
- "C14": "Lean 4 bisimulation proof (boundary states ~ fresh) + model/impl correspondence",
- "C15": "Lean 4 theorems front-end loops = pushAll + finalize + model/impl correspondence",
- "C16": "Lean 4 theorem (bounded run = unbounded run until overflow) + model/impl correspondence",
- "C17": "Lean 4 invariant proof (raw = bytes since boundary) + independent tiling oracle + correspondence",
- "C18": "Lean 4 refinement proof ArrayBuf -> ideal bounded vector + model/impl correspondence",
+ "C14": "Lean 4 bisimulation proof (boundary states ~ fresh, also after an allocation failure) + model/impl correspondence",
+ "C15": "Lean 4 theorems front-end loops = pushAll + finalize; buffers agree iff no out-of-memory + model/impl correspondence",
+ "C16": "Lean 4 theorem (bounded run = unbounded run until overflow; no truncation; next frame delivered) + model/impl correspondence",
+ "C17": "Lean 4 invariant proof (raw = bytes since boundary; byte-anchored tiling) + independent tiling oracle + correspondence",
+ "C18": "Lean 4 refinement proof ArrayBuf -> ideal bounded vector, literal util.rs transcription, decoder over the real ArrayBuf layout + model/impl correspondence"
+}
+NOTE = ("Trusted: Lean kernel (+ compiler/runtime for the compiled driver); axioms propext/Quot.sound/Classical.choice only; the hand-written model and "
+        "theorem statements; the correspondence harness (generators, printers, oracles) and check's audit parsing. Modelled not verified: fewer than 2^64 bytes "
+        "between two transmission boundaries (all model counters are proved bounded by that), usize >= 32 bits for `as usize` casts, Vec allocation succeeds "
+        "everywhere except the decoder buffer (modelled with a failing allocator and injected), std read_exact semantics, slice primitives, crc crate = CRC-16/X.25 "
+        "(compared on every frame and message), derive(Debug/PartialEq); generic glue is exercised with several instantiations; the harness builds the crate with "
+        "overflow checks so that wrapped counters are observable.")
+PARTIAL = {
+ "C05": " Partial by nature: stack exhaustion and hangs are observed by a watchdog only.",
+ "C06": " Partial by nature: allocated bytes and 'the streaming parser allocates nothing' are measured with a counting allocator; the proof covers element counts and the absence of re-growth.",
+ "C10": " Partial by nature: the generic SmlReader glue (const generics, IntoIterator<Item = impl Borrow<u8>>) is exercised with several instantiations, not proved.",
+ "C11": " Partial by nature: the io::Read::read_exact contract is assumed.",
+ "C15": " Partial by nature: generic glue exercised with several instantiations, not proved.",
 }
 props = [json.loads(l) for l in open(os.path.join(V, "properties.jsonl"))]
 checks = []
@@ -29,7 +42,7 @@ for p in props:
     proved = os.path.exists(os.path.join(V, "lean/Sml/Props/%s.lean" % i)) and os.path.exists(os.path.join(V, "lean/Sml/Audit/%s.lean" % i))
     if proved:
         cat = "proof"
-        text = ("Unbounded machine-checked Lean 4 theorems about the hand-written executable model (Sml/Props/%s.lean; axioms audited on every run), "
+        text = ("Unbounded machine-checked Lean 4 theorems about the hand-written executable model (the theorems audited in Sml/Audit/%s.lean; axioms audited on every run), "
                 "tied to /repo's working tree by a correspondence check: the real crate and the compiled model run on the same request lines and the "
                 "property-specific projection of their outputs must agree; the property's executable oracle is evaluated on the implementation's outputs to "
                 "produce a concrete replay when it fails." % i)
@@ -47,7 +60,7 @@ for p in props:
         "replay_cmd_template": "./check %s --replay {path}" % i,
         "engine": "lean-proof+correspondence",
         "level_claimed": {"category": cat, "text": text, "design_ref": "DESIGN.md §6 (%s)" % i},
-        "level_note": "Trusted: Lean kernel; axioms propext/Quot.sound/Classical.choice only; the hand-written model and theorem statements; the correspondence harness (generators, printers). Modelled not verified: 64-bit usize, Vec growth never fails, std read_exact semantics, slice primitives, crc crate = CRC-16/X.25 (compared on every frame), derive(Debug/PartialEq).",
+        "level_note": NOTE + PARTIAL.get(i, ""),
         "technique": tech,
     })
 m = {
